@@ -129,7 +129,7 @@ Definition write_indent : M unit :=
 Open Scope N_scope.
 Definition lead_ind : str := [35;44;91;93;123;125;38;42;33;124;62;39;34;37;64;96].   (* leading indicator characters *)
 Definition is_unicode_ok (ch : cp) : bool :=
-  ((ch =? 133) || ((160 <=? ch) && (ch <=? 55295)) || ((57344 <=? ch) && (ch <=? 65533)) || ((65536 <=? ch) && (ch <? 1114111)))
+  (((160 <=? ch) && (ch <=? 55295)) || ((57344 <=? ch) && (ch <=? 65533)) || ((65536 <=? ch) && (ch <? 1114111)))
   && negb (ch =? 65279).
 Close Scope N_scope.
 
@@ -204,9 +204,9 @@ Definition uri_ok : str := [59;47;63;58;64;38;61;43;36;44;46;126;42;39;40;41;91;
 Definition prepare_tag_prefix (p : str) : M str :=
   match p with
   | [] => err 6
-  | _ => (* the ord(int) TypeError of emitter.py:575 is modelled as a Crash on the first escaped character *)
-    let body := match p with c :: r => if N.eqb c 33 then r else p | [] => [] end in
-    if forallb (fun ch => is_alnum_ ch || mem ch (33%N :: uri_ok)) body then ret p else crash TypeError
+  | c :: r =>
+    let '(head, body) := if N.eqb c 33 then ([c], r) else ([], p) in
+    ret (head ++ flat_map (fun ch => if is_alnum_ ch || mem ch (33%N :: uri_ok) then [ch] else pct_escape ch) body)
   end.
 
 Fixpoint sorted_insert (x : str * str) (l : list (str * str)) : list (str * str) :=
